@@ -242,7 +242,12 @@ def run(chk):
         tree = ast.parse(open(os.path.join(REPO, "poupool.py")).read())
         fn = [n for n in ast.walk(tree) if isinstance(n, ast.FunctionDef) and n.name == "sigterm_handler"][0]
         body = [n for n in fn.body if not (isinstance(n, ast.Expr) and isinstance(n.value, ast.Constant))]
-        ok = len(body) == 2 and isinstance(body[0], ast.Global) and body[0].names == ["running"] and isinstance(body[1], ast.Assign) and ast.unparse(body[1]) == "running = False"
+        def harmless(n):
+            # logging / printing is fine; anything that touches signal dispositions, exits or raises is not
+            return isinstance(n, ast.Expr) and isinstance(n.value, ast.Call) and ast.unparse(n.value.func).split(".")[0] in ("logger", "logging", "print")
+
+        core = [n for n in body if not harmless(n)]
+        ok = len(core) == 2 and isinstance(core[0], ast.Global) and core[0].names == ["running"] and isinstance(core[1], ast.Assign) and ast.unparse(core[1]) == "running = False"
         chk.obligation("T8: sigterm_handler only clears the running flag (shape of the model's signal step)", ok, "; ".join(ast.unparse(n) for n in body)[:300])
     except Exception as e:  # noqa: BLE001
         chk.obligation("T8: sigterm_handler only clears the running flag (shape of the model's signal step)", False, repr(e))
